@@ -7,6 +7,8 @@ pub mod c08;
 pub mod c10;
 pub mod c11;
 pub mod c15;
+pub mod c19;
+pub mod c20;
 pub mod common;
 
 use vcore::evid::Tier;
@@ -30,6 +32,7 @@ pub fn dispatch(prop: &str, tier: Tier, replay: Option<String>) -> i32 {
         "C10" => c10::run(tier, replay),
         "C11" => c11::run(tier, replay),
         "C15" => c15::run(tier, replay),
+        "C19" => c19::run(tier, replay),
         other => {
             eprintln!("h_uplc: unknown property {other}");
             2
